@@ -60,7 +60,7 @@ fn parse_mut_calls(log: &str) -> Vec<Call> {
 
 fn errnos_for(func: &str, all: bool, rot: usize) -> Vec<&'static str> {
     let v: Vec<&'static str> = match func {
-        "rename" => vec!["EIO", "EXDEV", "EPERM", "ENOSPC", "EACCES"],
+        "rename" => vec!["EIO", "EXDEV", "EPERM", "ENOSPC", "EACCES", "EINVAL"],
         "link" => vec!["EPERM", "EIO", "EXDEV", "ENOSPC", "EMLINK"],
         "symlink" => vec!["EPERM", "EIO", "ENOSPC"],
         "unlink" => vec!["EIO", "EPERM"],
